@@ -82,6 +82,12 @@ func (f *Track3) Unpack(data []byte) (int, error) {
 		if err != nil {
 			return 0, err
 		}
+	} else {
+		// an empty value carries no components: forget those of a previous value
+		f.FormatCode, f.PrimaryAccountNumber, f.DiscretionaryData = "", "", ""
+		if f.data != nil {
+			*(f.data) = *f
+		}
 	}
 
 	return bytesRead, nil
